@@ -344,6 +344,20 @@ ROUND10 = {
  "C18": "Refusal at a daemon on a Unix domain socket.",
  "C20": "A method whose result is an iterator; a parameter with an empty value; a daemon that annotates its replies, with body chunks checked for type as a WSGI server does.",
 }
+ROUND11 = {
+ "C01": "Network messages travel bare, with the client's annotation, the daemon's, or both.",
+ "C02": "Every other probe follows a valid request of the other kind (oneway / answered) on the same connection.",
+ "C03": "Every sixth script's proxy has sent the daemon an argument it cannot rebuild before the script starts.",
+ "C05": "Streamed results are a generator, a list iterator or a map object by turns.",
+ "C07": "Every other streamed result is an iterator class of the application's own.",
+ "C16": "A converter of the application registered and withdrawn before a further registration; hand-over of an object from another daemon that is closed afterwards.",
+ "C17": "Buffers handed over as arrays of wide items.",
+ "C18": "Every fourth raising job leaves by SystemExit.",
+ "C19": "Routes tags_edited (a tag added in place after printing) and +again (received twice, the first receiver edits its copy).",
+ "C20": "A method whose answer never arrives (the connection is lost after it ran).",
+}
+for _k, _v in ROUND11.items():
+    ROUND10[_k] = (ROUND10[_k] + " " + _v) if _k in ROUND10 else _v
 for _k, _v in ROUND10.items():
     ROUND9[_k] = (ROUND9[_k] + " " + _v) if _k in ROUND9 else _v
 for _k, _v in ROUND9.items():
